@@ -16,11 +16,11 @@ Property theorems only (helper lemmas live in D3/Proofs/DistLine*.lean).  Everyt
 
 Total functions (`point_to_line`, `point_to_plane`, `plane_to_plane`) have no `_ok` theorem: their model
 does not return `Except` because they contain no division.
-As-is defect: `planeToHull_asIs_band`, `planeToTriangle_asIs_counterexample` (finding F-c10-hull-band).
+As-is defect: `planeToHull_asIs_band`, `planeToTriangle_asIs_counterexample` (finding F-c10-plane-hull-swapped).
 -/
 import D3.Proofs.DistLineLine
 import D3.Proofs.DistLineSegV
-import D3.Proofs.DistLineHull
+import D3.Proofs.DistLineShapes
 
 namespace D3
 namespace C10
@@ -338,6 +338,66 @@ theorem planeToRectangle_ok (pp n c ax0 ax1 : V) (l0 l1 : ℝ) :
 theorem planeToBox_ok (pp n : V) (A : Pose ℝ) (size : V) : ∃ r, planeToBox pp n A size = .ok r :=
   planeToHull_ok pp n _ (by simp [boxVertices, boxCoords])
 
+/-- **`plane_to_triangle`** outside the band: point on the plane, point in the triangle (barycentric
+definition), consistent distance, global optimality against the whole triangle -/
+theorem planeToTriangle_spec {pp n A B C : V} {r : Res3 ℝ} (h : planeToTriangle pp n A B C = .ok r)
+    (hu : UnitVec n) (hband : HullNoBand pp n [A, B, C]) :
+    planeSet pp n r.p1 ∧ triangleSet A B C r.p2 ∧ (r.d * r.d = V3.normSq (r.p1 - r.p2) ∧ 0 ≤ r.d) ∧
+      LowerBound (planeSet pp n) (triangleSet A B C) r.d := by
+  obtain ⟨h1, h2, h3, h4⟩ := planeToHull_spec h (by simp) hu hband
+  exact ⟨h1, (hull_triangle A B C _).mp h2, h3,
+    fun x hx y hy => h4 x hx y ((hull_triangle A B C y).mpr hy)⟩
+
+/-- **`plane_to_rectangle`** outside the band, for positive side lengths -/
+theorem planeToRectangle_spec {pp n c ax0 ax1 : V} {l0 l1 : ℝ} {r : Res3 ℝ}
+    (h : planeToRectangle pp n c ax0 ax1 l0 l1 = .ok r) (hu : UnitVec n) (h0 : 0 < l0) (h1 : 0 < l1)
+    (hband : HullNoBand pp n (rectVertices c ax0 ax1 l0 l1)) :
+    planeSet pp n r.p1 ∧ rectSet c ax0 ax1 l0 l1 r.p2 ∧ (r.d * r.d = V3.normSq (r.p1 - r.p2) ∧ 0 ≤ r.d) ∧
+      LowerBound (planeSet pp n) (rectSet c ax0 ax1 l0 l1) r.d := by
+  obtain ⟨m1, m2, m3, m4⟩ := planeToHull_spec h (by simp [rectVertices, rectCoords]) hu hband
+  exact ⟨m1, (hull_rect c ax0 ax1 l0 l1 h0 h1 _).mp m2, m3,
+    fun x hx y hy => m4 x hx y ((hull_rect c ax0 ax1 l0 l1 h0 h1 y).mpr hy)⟩
+
+/-- **`plane_to_box`** outside the band, for positive edge lengths (no orthonormality of the pose is needed:
+the statement is about the image of the local box under `x ↦ R x + t`) -/
+theorem planeToBox_spec {pp n : V} {A : Pose ℝ} {size : V} {r : Res3 ℝ}
+    (h : planeToBox pp n A size = .ok r) (hu : UnitVec n)
+    (hx : 0 < size.x) (hy : 0 < size.y) (hz : 0 < size.z)
+    (hband : HullNoBand pp n (boxVertices A size)) :
+    planeSet pp n r.p1 ∧ boxSet A size r.p2 ∧ (r.d * r.d = V3.normSq (r.p1 - r.p2) ∧ 0 ≤ r.d) ∧
+      LowerBound (planeSet pp n) (boxSet A size) r.d := by
+  obtain ⟨m1, m2, m3, m4⟩ := planeToHull_spec h (by simp [boxVertices, boxCoords]) hu hband
+  exact ⟨m1, (hull_box A size hx hy hz _).mp m2, m3,
+    fun x hx' y hy' => m4 x hx' y ((hull_box A size hx hy hz y).mpr hy')⟩
+
+/-- **tail of `plane_to_ellipsoid` / `plane_to_cylinder`**: `_plane_to_convex_hull_points` applied to the two
+support points of a convex body `K` in the directions `∓n` (that the support functions do return support
+points of the solid ellipsoid / cylinder is C03: `C03.ellipsoid_support`, `C03.cylinder_support`).
+Outside the band: point on the plane, point in `K`, consistent distance, optimal against all of `K`. -/
+theorem planeToSupportPair_spec {pp n pm pq : V} {K : V → Prop} {r : Res3 ℝ}
+    (h : planeToSupportPair pp n pm pq = .ok r) (hu : UnitVec n) (hc : ConvexSet K)
+    (hm : IsSupport K (-n) pm) (hq : IsSupport K n pq) (hband : HullNoBand pp n [pm, pq]) :
+    planeSet pp n r.p1 ∧ K r.p2 ∧ (r.d * r.d = V3.normSq (r.p1 - r.p2) ∧ 0 ≤ r.d) ∧
+      LowerBound (planeSet pp n) K r.d :=
+  DistLine.planeToSupportPair_spec h hu hc hm hq hband
+
+theorem planeToSupportPair_ok (pp n pm pq : V) : ∃ r, planeToSupportPair pp n pm pq = .ok r :=
+  planeToHull_ok pp n [pm, pq] (by simp)
+
+/-- non-vacuity: the segment `K` from `(0,0,1)` to `(0,0,3)` is convex with support points at its ends -/
+example : ConvexSet (segmentSet (⟨0, 0, 1⟩ : V) ⟨0, 0, 3⟩) ∧
+    IsSupport (segmentSet (⟨0, 0, 1⟩ : V) ⟨0, 0, 3⟩) (-(⟨0, 0, 1⟩ : V)) ⟨0, 0, 1⟩ ∧
+    IsSupport (segmentSet (⟨0, 0, 1⟩ : V) ⟨0, 0, 3⟩) ⟨0, 0, 1⟩ ⟨0, 0, 3⟩ := by
+  refine ⟨?_, ⟨⟨0, le_refl _, zero_le_one, by apply V3.ext' <;> simp⟩, ?_⟩,
+    ⟨⟨1, zero_le_one, le_refl _, by apply V3.ext' <;> simp <;> norm_num⟩, ?_⟩⟩
+  · rintro x y t ⟨a, a0, a1, rfl⟩ ⟨b, b0, b1, rfl⟩ h0 h1
+    refine ⟨(1 - t) * a + t * b, by nlinarith, by nlinarith, ?_⟩
+    apply V3.ext' <;> simp <;> ring
+  · rintro x ⟨a, a0, a1, rfl⟩
+    vsimp; norm_num; nlinarith
+  · rintro x ⟨a, a0, a1, rfl⟩
+    vsimp; norm_num; nlinarith
+
 /-- non-vacuity of `HullNoBand`: a triangle strictly above the plane has no straddling pair at all -/
 example : HullNoBand (⟨0, 0, 0⟩ : V) ⟨0, 0, 1⟩ [⟨0, 0, 1⟩, ⟨1, 0, 1⟩, ⟨0, 1, 2⟩] := by
   intro p hp q _ hpn _
@@ -345,7 +405,7 @@ example : HullNoBand (⟨0, 0, 0⟩ : V) ⟨0, 0, 1⟩ [⟨0, 0, 1⟩, ⟨1, 0, 
   simp only [List.mem_cons, List.mem_nil_iff, or_false] at hp
   rcases hp with rfl | rfl | rfl <;> revert hpn <;> vsimp <;> norm_num
 
-/-- **As-is defect inside the band** (finding F-c10-hull-band): see `DistLine.planeToHull_asIs_band`. -/
+/-- **As-is defect inside the band** (finding F-c10-plane-hull-swapped): see `DistLine.planeToHull_asIs_band`. -/
 theorem planeToHull_asIs_band {pp n : V} {pts : List V} {r : Res3 ℝ} (h : planeToHull pp n pts = .ok r)
     (hex : ∃ p ∈ pts, ∃ q ∈ pts, V3.dot (p - pp) n < 0 ∧ 0 < V3.dot (q - pp) n)
     (hall : ∀ p ∈ pts, ∀ q ∈ pts, V3.dot (p - pp) n < 0 → 0 < V3.dot (q - pp) n →
